@@ -320,12 +320,23 @@ func TestVerifC12b(t *testing.T) {
 		seen  [2]string
 		errs  [2]string
 	}
-	for _, outcomeKind := range []string{"ok", "first-fails"} {
+	for _, outcomeKind := range []string{"ok", "first-fails", "two-hooks"} {
 		outcomeKind := outcomeKind
 		var obs *obsT
 		body := func(x *vrt.Exec) {
 			obs = &obsT{}
-			fx := newFixture([]fxHook{{Name: "h.sh", Config: "configVersion: v1\nschedule:\n- name: sa\n  crontab: \"* * * * *\"\n  queue: qa\n- name: sb\n  crontab: \"* * * * *\"\n  queue: qb\n"}})
+			hookOf := map[string]string{"sa": "h.sh", "sb": "h.sh"}
+			hooks := []fxHook{{Name: "h.sh", Config: "configVersion: v1\nschedule:\n- name: sa\n  crontab: \"* * * * *\"\n  queue: qa\n- name: sb\n  crontab: \"* * * * *\"\n  queue: qb\n"}}
+			if outcomeKind == "two-hooks" {
+				// two different hooks whose names differ only in characters that file names are
+				// cleaned of: each execution still has files of its own
+				hookOf = map[string]string{"sa": "sub/hook.sh", "sb": "sub-hook.sh"}
+				hooks = []fxHook{
+					{Name: "sub/hook.sh", Config: "configVersion: v1\nschedule:\n- name: sa\n  crontab: \"* * * * *\"\n  queue: qa\n"},
+					{Name: "sub-hook.sh", Config: "configVersion: v1\nschedule:\n- name: sb\n  crontab: \"* * * * *\"\n  queue: qb\n"},
+				}
+			}
+			fx := newFixture(hooks)
 			obs.fx = fx
 			defer fx.close()
 			fx.Script = func(run *fxRun) fxOutcome {
@@ -351,7 +362,7 @@ func TestVerifC12b(t *testing.T) {
 				vrt.GoNamed("exec-"+b, func() {
 					bc := bindingcontext.BindingContext{Binding: b}
 					bc.Metadata.BindingType = htypes.Schedule
-					tk := task.NewTask(task_metadata.HookRun).WithMetadata(task_metadata.HookMetadata{HookName: "h.sh", BindingType: htypes.Schedule, Binding: b, BindingContext: []bindingcontext.BindingContext{bc}}).WithQueueName("q" + b[1:])
+					tk := task.NewTask(task_metadata.HookRun).WithMetadata(task_metadata.HookMetadata{HookName: hookOf[b], BindingType: htypes.Schedule, Binding: b, BindingContext: []bindingcontext.BindingContext{bc}}).WithQueueName("q" + b[1:])
 					res := fx.op.taskHandler(tk)
 					obs.res[i] = string(res.Status)
 					obs.errs[i] = tk.GetFailureMessage()
